@@ -443,5 +443,11 @@ mut('C08-eigenvalue-floor-dropped', 'C08', D + 'cacgmm.py', "            hermiti
 for r, what in (('R1', 'mixture_model_utils / cacgmm / cACG'), ('R2', 'cwmm / cbmm / Watson / Bingham / distribution.utils'), ('R3', 'gmm / gaussian / vMF / gcacgmm / vmfcacgmm'),
                 ('R4', 'beamformer / beamformer_wrapper / math.solve'), ('R5', 'permutation_alignment / initializers'), ('R6', 'mask_module / sxr_module / si_sdr / utils')):
     C.append(dict(id=f'N3-{r}-refactoring', kind='neutral', properties=ALLP, note=f'independent refactoring of {what}', patch=f'neutral_patches/{r}.patch', edits=[]))
+# ---- second campaign: deeper restructurings (guard clauses, extracted / inlined helpers incl. helpers that update arrays in place, loops <-> comprehensions /
+#      zip / ndindex, moveaxis / transpose / swapaxes, clip / maximum, named constants, max(key=...), merged einsum branches, einsum <-> sum / matmul / broadcasting)
+for r, what in (('R21', 'mixture_model_utils / cacgmm / cACG'), ('R22', 'cwmm / cbmm / Watson / Bingham / distribution.utils'), ('R23', 'gmm / gaussian / vMF / gcacgmm / vmfcacgmm'),
+                ('R24', 'beamformer / beamformer_wrapper / math.solve'), ('R25', 'permutation_alignment / initializers'), ('R26', 'mask_module / sxr_module / si_sdr / utils')):
+    C.append(dict(id=f'N4-{r}-restructuring', kind='neutral', properties=ALLP, note=f'independent deeper restructuring of {what}', patch=f'neutral_patches/{r}.patch', edits=[],
+                  inconclusive_ok={'R23': ['C08'], 'R24': ['C12']}.get(r, [])))
 out.write_text(json.dumps(C, indent=1))
 print(len(C), 'variants ->', out)
